@@ -123,8 +123,16 @@ def gen_cases(rng, n):
                 d.inject[(0x02, 0x01)] = rng.choice([0x6A87, 0x6A8F, 0x6A90, 0x6A91, 0x6B01])
                 meta["device_success"] = False
         sr, ss = d.sign_sig
-        cases.append({"mode": mode, "kind": "ledger", "lines": [gen.line(req)], "device": d,
-                      "meta": meta})
+        case = {"mode": mode, "kind": "ledger", "lines": [gen.line(req)], "device": d, "meta": meta}
+        if r >= 0.9:
+            # history: the same request first hits a link failure at some exchange, is repeated once the
+            # link is back: the repaired link must carry the whole request to the device
+            case["device"] = devices.FailOnce(d, at=(rng.choice([0, 1, 2, 3]) if kind in (0, 1) else 0),
+                                              kind=rng.choice(["W", "R"]))
+            case["lines"] = [gen.line(req)] * 2
+            case["connects"] = [True]
+            meta["history"] = "link-failure-then-retry"
+        cases.append(case)
     return cases
 
 
